@@ -74,6 +74,32 @@ theorem deepRef_step {P : Nat → Prop} {h0 : Heap} (hP : ∀ x, h0.length ≤ x
   split
   · -- a Frame object
     exact ⟨cloneFr_inv st _ inv, fun x h => by simp at h⟩
+  · -- an Infos helper: a marker cell is allocated and entered in the memo, then the object it is bound to is duplicated (or found in the memo)
+    rename_i o g
+    split
+    · have h1 := ih st (.addr o) inv
+      split
+      · rename_i st2 o' he
+        rw [he] at h1
+        exact ⟨h1.1, fun x h => by simp at h⟩
+      · rename_i st2 r' hne he
+        rw [he] at h1
+        exact ⟨h1.1, fun x h => by simp at h⟩
+    · have inv1 : DeepInv P h0 { st with h := st.h ++ [.clone], m := (g, st.h.length) :: st.m } := by
+        refine ⟨inv.pres.alloc .clone, inv.closed.alloc .clone (by simp [refsOf]), ?_⟩
+        intro p hp
+        simp at hp
+        rcases hp with rfl | hp
+        · exact inv.pres.1
+        · exact inv.memo p hp
+      have h1 := ih _ (.addr o) inv1
+      split
+      · rename_i st2 o' he
+        rw [he] at h1
+        exact ⟨h1.1, fun x h => by simp at h⟩
+      · rename_i st2 r' hne he
+        rw [he] at h1
+        exact ⟨h1.1, fun x h => by simp at h⟩
   · rename_i a
     split
     · rename_i a' hl
